@@ -7,7 +7,7 @@ use libfuzzer_sys::fuzz_target;
 use vchecks::c07::{check_case, Item, SepCase};
 
 fn item(u: &mut Unstructured) -> Item {
-    let texts = ["", " ", "x", "\"", "//", "/*", "/", "*", "+", "=", "&", "1e", "ä", "a b", "\n", "**"];
+    let texts = ["", " ", "x", "\"", "//", "/*", "/", "*", "+", "=", "&", "1e", "ä", "a b", "\n", "**", "\r", "\u{2028}", "(", ")"];
     match u.int_in_range(0..=9u8).unwrap_or(0) {
         0..=5 => Item::Ws(u.int_in_range(0..=24usize).unwrap_or(5)),
         6 => Item::Block(String::new()),
